@@ -422,10 +422,30 @@ class HistoryGen:
             op.update(op="solution", e=e, v=v, extra=ex)
         elif kind in ("is_true", "is_false"):
             rc_ = self._recent(h, "c")
-            e = r.choice(rc_) if (rc_ and r.chance(50)) else self.egf(h).boolean(1)
+            if r.chance(self.p.get("truth_template_pct", 15)) and self.egf(h).bvs:
+                e = self.truth_template(h, kind == "is_true")
+            else:
+                e = r.choice(rc_) if (rc_ and r.chance(50)) else self.egf(h).boolean(1)
             op.update(op=kind, e=e, extra=self.extras(h) if r.chance(30) else [])
         self.exact_arg(h, op)
         return op
+
+    def truth_template(self, h, want_valid):
+        """a tautology (or, for is_false, a contradiction) that claripy's own rewriting does not fold: the cheap truth
+        check has to ask its backend, so True is the informative answer"""
+        r = self.r
+        eg = self.egf(h)
+        n = r.choice(eg.bvs)
+        w = self.vars[n]
+        x = ["var", n]
+        k = (r.range(1, (1 << w) - 1)) if w > 1 else 1
+        c = ["const", k, w]
+        pool = [["ne", x, ["add", x, c]], ["eq", ["sub", ["add", x, c], c], x], ["ule", ["and", x, c], c] if eg.ok("and") else ["ne", x, ["add", x, c]],
+                ["eq", ["xor", ["xor", x, c], c], x] if eg.ok("xor") else ["ne", x, ["sub", x, c]], ["uge", ["or", x, c], c] if eg.ok("or") else ["ne", x, ["sub", x, c]]]
+        t = r.choice(pool)
+        if not want_valid:
+            t = ["bnot", t] if r.chance(50) else {"ne": ["eq"] + t[1:], "eq": ["ne"] + t[1:], "ule": ["ugt"] + t[1:], "uge": ["ult"] + t[1:]}[t[0]]
+        return t
 
     def gen_op(self):
         r = self.r
